@@ -52,6 +52,19 @@ Theorem cei_reduction : forall M nc perm,
 Proof. exact Proofs.C1P.cei_reduction. Qed.
 Print Assumptions cei_reduction.
 
+(* heredity: rows dropped, only the distinct columns cols kept *)
+Theorem c1p_hereditary : forall rows nc rows' cols,
+  C1P rows nc -> incl rows' rows -> NoDup cols -> Forall (fun j => j < nc) cols ->
+  C1P (map (select_cols cols) rows') (length cols).
+Proof. exact Proofs.C1P.c1p_hereditary. Qed.
+Print Assumptions c1p_hereditary.
+
+(* a refuted submatrix certifies the negative verdict at any size *)
+Theorem c1p_core_refuted_sound : forall rows nc ridx cols,
+  c1p_core_refuted rows nc ridx cols = true -> c1p_decide rows nc = false.
+Proof. exact Proofs.C1P.c1p_core_refuted_sound. Qed.
+Print Assumptions c1p_core_refuted_sound.
+
 (* ---- witness checkers = defining properties ---- *)
 Theorem ci_check_correct : forall alts ballots order,
   ci_check alts ballots order = true <->
@@ -109,7 +122,7 @@ Print Assumptions part_check_sound.
 Theorem part2_check_correct : forall alts ballots parts,
   part2_check alts ballots parts = true <->
   part_check ballots parts = true /\
-  (length parts = 1 \/ (length parts = 2 /\ SetEq (concat parts) alts)).
+  (length parts <= 1 \/ (length parts = 2 /\ SetEq (concat parts) alts)).
 Proof. exact Proofs.Approval.part2_check_unfold. Qed.
 Print Assumptions part2_check_correct.
 
@@ -221,19 +234,31 @@ Print Assumptions part_correct.
 Theorem part_witness : forall ballots parts, is_part ballots = Some parts -> part_check ballots parts = true.
 Proof. exact Proofs.Approval.part_witness. Qed.
 Print Assumptions part_witness.
-Theorem two_part_correct : forall alts ballots,
-  (exists parts, is_2_part alts ballots = Some parts) <-> TwoPart alts ballots.
+(* TwoPart = the text of the property: any two approval sets equal or disjoint, AT MOST two distinct ones
+   (none when there is no ballot), two distinct ones cover all alternatives.
+   FULL CLAUSE (false for the current code, see two_part_no_ballots_refuted):
+     forall alts ballots, (exists parts, is_2_part alts ballots = Some parts) <-> TwoPart alts ballots.
+   Proved: soundness for every profile, completeness for every profile with at least one ballot. *)
+Theorem two_part_sound : forall alts ballots parts,
+  is_2_part alts ballots = Some parts -> TwoPart alts ballots.
+Proof. exact Proofs.Approval.two_part_sound. Qed.
+Print Assumptions two_part_sound.
+Theorem two_part_correct : forall alts ballots, ballots <> [] ->
+  ((exists parts, is_2_part alts ballots = Some parts) <-> TwoPart alts ballots).
 Proof. exact Proofs.Approval.two_part_correct. Qed.
 Print Assumptions two_part_correct.
 Theorem two_part_witness : forall alts ballots parts,
   is_2_part alts ballots = Some parts -> part2_check alts ballots parts = true.
 Proof. exact Proofs.Approval.two_part_witness. Qed.
 Print Assumptions two_part_witness.
-(* TwoPart demands a ballot: is_2_part answers False on the profile without ballots, although it has zero
-   (<= 2) distinct approval sets *)
+(* is_2_part answers False on the profile without ballots, although it has zero (<= 2) distinct approval sets *)
 Theorem two_part_no_ballots : forall alts, is_2_part alts [] = None.
 Proof. exact Proofs.Approval.two_part_no_ballots. Qed.
 Print Assumptions two_part_no_ballots.
+Theorem two_part_no_ballots_refuted :
+  exists alts ballots, TwoPart alts ballots /\ is_2_part alts ballots = None.
+Proof. exact Proofs.Approval.two_part_no_ballots_refuted. Qed.
+Print Assumptions two_part_no_ballots_refuted.
 
 (* ---- the six recognisers built on the solver (mirrored, solver as a parameter): relative to a solver that
    answers like the verified reference and returns column orders accepted by the verified checker — which is
